@@ -264,7 +264,7 @@ func runC05(c *Ctx) {
 	// ---- R4 no aliasing of init
 	{
 		n := 0
-		for _, b := range cacheFn.Blocks {
+		for _, b := range blocksDeep(cacheFn) {
 			for _, in := range b.Instrs {
 				st, ok := in.(*ssa.Store)
 				if !ok {
@@ -312,7 +312,7 @@ func hasBoolFact(fs []Fact, m Matcher, truth bool) bool {
 // flows into (through phis and further appends).
 func appendTargets(fn *ssa.Function, owner string) map[*ssa.Call]string {
 	out := map[*ssa.Call]string{}
-	for _, b := range fn.Blocks {
+	for _, b := range blocksDeep(fn) {
 		for _, in := range b.Instrs {
 			st, ok := in.(*ssa.Store)
 			if !ok {
